@@ -712,7 +712,7 @@ func (l *parkLogger) Info(msg string, ctx ...interface{}) {
 // own goroutine, parked at log line at; during runs on the driver while the
 // committer is parked (World.NoWait is set: client steps do not wait for
 // quiescence); then the committer is released and everything settles.
-func (w *World) CommitRace(block *types.Block, at string, during func()) (res CommitResult, parked bool) {
+func (w *World) CommitRace(block *types.Block, at string, noWait bool, during func()) (res CommitResult, parked bool) {
 	wb, parts, err := w.Wire(block)
 	if err != nil {
 		res.Err = fmt.Errorf("wire: %v", err)
@@ -752,7 +752,7 @@ func (w *World) CommitRace(block *types.Block, at string, during func()) (res Co
 	cp.armed = false
 	cp.mu.Unlock()
 	if parked {
-		w.NoWait = true
+		w.NoWait = noWait
 		if w.SpinBound == 0 {
 			w.SpinBound = 3000
 		}
